@@ -166,6 +166,28 @@ func runCase(t *testing.T, c *Case, sch scheduler, maxMoves int, drain bool, emi
 					mv.O = "val"
 					mv.V = v
 				}
+			case "park":
+				// the consumer parks in a blocking receive on output k and takes whatever comes until the channel
+				// closes (at most 200 values: a select with the send and ctx.Done() both ready picks the send 200
+				// times in a row with probability 2^-200); only used after a cancel, which guarantees the close
+				if outs[in.k].wait == nil || !st.cancelled {
+					return
+				}
+				for n := 0; n < 200 && !st.closedOut[in.k]; n++ {
+					v, closed := outs[in.k].wait()
+					pm := Move{M: "recv", K: in.k}
+					if closed {
+						pm.O = "closed"
+						st.closedOut[in.k] = true
+					} else {
+						pm.O = "val"
+						pm.V = v
+					}
+					st.nmoves++
+					c.Moves = append(c.Moves, pm)
+				}
+				synctest.Wait()
+				return
 			case "cancel":
 				cancel()
 				st.cancelled = true
